@@ -22,6 +22,12 @@ impl MessageBatch {
         self.batch.is_empty()
     }
 
+    /// Size of the frame body this batch encodes to (before any compression).
+    pub fn encoded_len(&self) -> usize {
+        const LEN_SIZE: usize = std::mem::size_of::<u64>();
+        LEN_SIZE + self.batch.iter().map(|m| LEN_SIZE + m.len()).sum::<usize>()
+    }
+
     pub fn update_last_run(&mut self, instant: Instant) {
         self.last_run = instant;
     }
